@@ -236,6 +236,20 @@ async fn sink_main<S: Sys>(env: &mut Env<S>, args: Vec<Field>) -> BResult {
     }
 }
 
+/// `pos [TAG]`: records the offset of fd 0 (`-1` if it is not seekable) in the trace.
+fn pos_main<S: Sys>(env: &mut Env<S>, args: Vec<Field>) -> BResult {
+    use yash_env::system::Seek as _;
+    let off = match env.system.lseek(Fd::STDIN, std::io::SeekFrom::Current(0)) {
+        Ok(o) => o as i64,
+        Err(_) => -1,
+    };
+    let mut a = vec!["pos".to_string(), off.to_string()];
+    a.extend(values(&args));
+    let entry = TraceEntry { pid: env.system.getpid().0, status: env.exit_status.0, args: a };
+    TRACE.with(|t| t.borrow_mut().push(entry));
+    BResult::new(env.exit_status)
+}
+
 fn snap_main<S: Sys>(env: &mut Env<S>, args: Vec<Field>) -> BResult {
     let tag = args.first().map(|f| f.value.clone()).unwrap_or_default();
     let s = snapshot(env, &tag);
@@ -261,6 +275,7 @@ pub fn register<S: Sys>(env: &mut Env<S>) {
         ("cat", Builtin::new(Type::Mandatory, |env, args| Box::pin(cat_main(env, args)))),
         ("gen", Builtin::new(Type::Mandatory, |env, args| Box::pin(gen_main(env, args)))),
         ("sink", Builtin::new(Type::Mandatory, |env, args| Box::pin(sink_main(env, args)))),
+        ("pos", Builtin::new(Type::Mandatory, |env, args| Box::pin(ready(pos_main(env, args))))),
         ("snap", Builtin::new(Type::Mandatory, |env, args| Box::pin(ready(snap_main(env, args))))),
     ];
     for (name, b) in list {
